@@ -324,8 +324,7 @@ def run(ctx: Context, rep) -> None:
                        message=f"`{m}` on a protocol queue: polling the queue "
                        "state or non-blocking access opens a check-then-act "
                        "race with the other threads")
-    if n_q < 6 and not rep.violations:
-        raise AnalysisError(f"C13.owner: {n_q} queue operations, floor 6")
+    rep.floor("C13.owner", n_q, 6, "instances")
 
     # -- reset ----------------------------------------------------------------------
     rep.rule(
